@@ -1,0 +1,101 @@
+//go:build verif
+
+package generation
+
+// Contracts for the verifier in /verif (comment-only file; no declarations).
+// C16: totals equal the sum of their parts, delivered = generated x ratio,
+// linearity with the mg/L -> kg/m3 factor 1e-3, zero load for a zero driver.
+
+//@ func emcDWC(quickflow, slowflow, emc, dwc, quickLoad, slowLoad, totalLoad)
+//@   noalias
+//@   safety C16
+//@   requires quickflow.len == slowflow.len && quickflow.len == quickLoad.len && quickflow.len == slowLoad.len && quickflow.len == totalLoad.len
+//@   requires implies(emc == 0 && dwc == 0, forall(t, 0, quickflow.len, quickLoad.at(t) == 0 && slowLoad.at(t) == 0 && totalLoad.at(t) == 0))
+//@   assigns quickLoad.cells, slowLoad.cells, totalLoad.cells
+//@   ensures [C16.emc-total] forall(t, 0, quickflow.len, totalLoad.at(t) == quickLoad.at(t) + slowLoad.at(t))
+//@   ensures [C16.emc-linear] forall(t, 0, quickflow.len, quickLoad.at(t) == quickflow.at(t)*emc*0.001 && slowLoad.at(t) == slowflow.at(t)*dwc*0.001)
+//@   loop 0 invariant 0 <= i && i <= nDays
+//@   loop 0 invariant forall(t, 0, i, totalLoad.at(t) == quickLoad.at(t) + slowLoad.at(t))
+//@   loop 0 invariant forall(t, 0, i, quickLoad.at(t) == quickflow.at(t)*emc*0.001 && slowLoad.at(t) == slowflow.at(t)*dwc*0.001)
+
+//@ func fixedConcentration(flow, conc, load)
+//@   noalias
+//@   safety C16
+//@   requires flow.len == load.len
+//@   requires implies(conc == 0, forall(t, 0, load.len, load.at(t) == 0))
+//@   assigns load.cells
+//@   ensures [C16.fixed-conc-linear] forall(t, 0, flow.len, load.at(t) == flow.at(t)*conc*0.001)
+//@   loop 0 invariant 0 <= i && i <= nDays
+//@   loop 0 invariant forall(t, 0, i, load.at(t) == flow.at(t)*conc*0.001)
+
+//@ func passLoadIfFlow(flow, inputLoad, scalingFactor, outputLoad)
+//@   noalias
+//@   safety C16
+//@   requires flow.len == inputLoad.len && flow.len == outputLoad.len
+//@   requires implies(scalingFactor == 0, forall(t, 0, outputLoad.len, outputLoad.at(t) == 0))
+//@   assigns outputLoad.cells
+//@   ensures [C16.pass-load] forall(t, 0, flow.len, outputLoad.at(t) == ite(flow.at(t) > 0.00000001, inputLoad.at(t)*scalingFactor, 0.0))
+//@   loop 0 invariant 0 <= day && day <= n
+//@   loop 0 invariant forall(t, 0, day, outputLoad.at(t) == ite(flow.at(t) > 0.00000001, inputLoad.at(t)*scalingFactor, 0.0))
+
+//@ func dissolvedNutrients(quickflow, slowflow, dissConst_EMC, dissConst_DWC, quickflowConstituent, slowflowConstituent, totalLoad)
+//@   noalias
+//@   safety C16
+//@   requires quickflow.len == slowflow.len && quickflow.len == quickflowConstituent.len && quickflow.len == slowflowConstituent.len && quickflow.len == totalLoad.len
+//@   assigns quickflowConstituent.cells, slowflowConstituent.cells, totalLoad.cells
+//@   loop 0 invariant 0 <= day && day <= n
+//@   loop 0 step [C16.dissolved-total] totalLoad.at(day) == quickflowConstituent.at(day) + slowflowConstituent.at(day)
+//@   loop 0 step [C16.dissolved-linear] quickflowConstituent.at(day) == dissConst_EMC*quickflow.at(day)*0.001 && slowflowConstituent.at(day) == dissConst_DWC*slowflow.at(day)*0.001
+
+//@ func particulateNutrients(fineSheet, coarseSheet, fineGully, coarseGully, slowflow, area, nutSurfSoilConc, hillDeliveryRatio, enrichment, nutSubSoilConc, enrichmentGully, gullyDeliveryRatio, nutrientDWC, doCreams, quickflowConstituent, slowflowConstituent, totalLoad, hillslopeContribution, gullyContribution)
+//@   noalias
+//@   safety C16
+//@   requires fineSheet.len == coarseSheet.len && fineGully.len == coarseSheet.len && coarseGully.len == coarseSheet.len && slowflow.len == coarseSheet.len
+//@   requires quickflowConstituent.len == coarseSheet.len && slowflowConstituent.len == coarseSheet.len && totalLoad.len == coarseSheet.len && hillslopeContribution.len == coarseSheet.len && gullyContribution.len == coarseSheet.len
+//@   assigns quickflowConstituent.cells, slowflowConstituent.cells, totalLoad.cells, hillslopeContribution.cells, gullyContribution.cells
+//@   loop 0 invariant 0 <= day && day <= n
+//@   loop 0 step [C16.particulate-total] totalLoad.at(day) == quickflowConstituent.at(day) + slowflowConstituent.at(day)
+//@   loop 0 step [C16.particulate-quick] quickflowConstituent.at(day) == hillslopeContribution.at(day) + gullyContribution.at(day)
+//@   loop 0 step [C16.particulate-delivery] hillslopeContribution.at(day) == (fineSheet.at(day) + coarseSheet.at(day)) * nutSurfSoilConc * enrichment * (hillDeliveryRatio*0.01) && gullyContribution.at(day) == (fineGully.at(day) + coarseGully.at(day)) * nutSubSoilConc * enrichmentGully * (gullyDeliveryRatio*0.01)
+//@   loop 0 step [C16.particulate-slow] slowflowConstituent.at(day) == slowflow.at(day)*nutrientDWC*0.001
+
+//@ func bankErosion(downstreamFlowVolume, totalVolume, riparianVegPercent, maxRiparianVegEffectiveness, soilErodibility, bankErosionCoeff, linkSlope, bankFullFlow, bankMgtFactor, sedBulkDensity, bankHeight, linkLength, dailyFlowPowerFactor, longTermAvDailyFlow, soilPercentFine, durationInSeconds, bankErosionFine, bankErosionCoarse)
+//@   noalias
+//@   safety C16
+//@   requires downstreamFlowVolume.len == totalVolume.len && downstreamFlowVolume.len == bankErosionFine.len && downstreamFlowVolume.len == bankErosionCoarse.len
+//@   requires durationInSeconds > 0
+//@   requires 0 <= riparianVegPercent && riparianVegPercent <= 100 && 0 <= maxRiparianVegEffectiveness && maxRiparianVegEffectiveness <= 100 && soilErodibility >= 0 && bankErosionCoeff >= 0
+//@   requires linkSlope >= 0 && bankFullFlow >= 0 && bankMgtFactor >= 0 && sedBulkDensity >= 0 && bankHeight >= 0 && linkLength >= 0 && 0 <= soilPercentFine && soilPercentFine <= 100
+//@   assigns bankErosionFine.cells, bankErosionCoarse.cells
+//@   loop 0 invariant 0 <= i && i <= n
+//@   loop 0 step [C16.bank-split] bankErosionFine.at(i) * (1 - soilPercentFine*0.01) == bankErosionCoarse.at(i) * (soilPercentFine*0.01)
+//@   loop 0 step [C16.bank-zero-driver] implies(downstreamFlowVolume.at(i) <= 0 || totalVolume.at(i) <= 0 || longTermAvDailyFlow <= 0, bankErosionFine.at(i) == 0 && bankErosionCoarse.at(i) == 0)
+//@   loop 0 step [C16.bank-nonneg] bankErosionFine.at(i) >= 0 && bankErosionCoarse.at(i) >= 0
+
+//@ func sednetGully(quickflow, year, annualRunoff_ts, annualLoad_ts, yearDisturbance, gullyEndYear, area, averageGullyActivityFactor, annualAverageSedimentSupply, percentFine, managementPracticeFactor, longtermRunoffFactor, dailyRunoffPowerFactor, sdrFine, sdrCoarse, timestepInSeconds, fineLoad, coarseLoad, generatedFine, generatedCoarse, calc)
+//@   noalias
+//@   safety C16
+//@   requires quickflow.len == year.len && quickflow.len == annualRunoff_ts.len && quickflow.len == annualLoad_ts.len && quickflow.len == fineLoad.len && quickflow.len == coarseLoad.len && quickflow.len == generatedFine.len && quickflow.len == generatedCoarse.len
+//@   requires timestepInSeconds > 0
+//@   requires forall(t, 0, quickflow.len, generatedFine.at(t) == 0 && generatedCoarse.at(t) == 0)
+//@   assigns fineLoad.cells, coarseLoad.cells, generatedFine.cells, generatedCoarse.cells
+//@   loop 0 invariant 0 <= day && day <= n
+//@   loop 0 invariant forall(t, day, n, generatedFine.at(t) == 0 && generatedCoarse.at(t) == 0)
+//@   loop 0 step [C16.gully-delivery] fineLoad.at(day) == generatedFine.at(day) * (sdrFine*0.01) && coarseLoad.at(day) == generatedCoarse.at(day) * (sdrCoarse*0.01)
+//@   loop 0 step [C16.gully-zero-driver] implies(quickflow.at(day) == 0 || annualRunoff_ts.at(day) == 0 || year.at(day) < yearDisturbance, fineLoad.at(day) == 0 && coarseLoad.at(day) == 0)
+
+//@ func usleFine(quickflow, slowflow, rainfall, klsc, klscFine, covOrCFact, dayOfYear, s, p, rainThreshold, alpha, beta, eta, a1, a2, a3, dwc, avK, avLS, avFines, area, maxConc, usleHSDRFine, usleHSDRCoarse, timeStepInSeconds, quickLoadFine, slowLoadFine, quickLoadCoarse, slowLoadCoarse, totalFineLoad, totalCoarseLoad, generatedLoadFine, generatedLoadCoarse)
+//@   noalias
+//@   safety C16
+//@   requires quickflow.len == slowflow.len && quickflow.len == rainfall.len && quickflow.len == klsc.len && quickflow.len == klscFine.len && quickflow.len == covOrCFact.len && quickflow.len == dayOfYear.len
+//@   requires quickflow.len == quickLoadFine.len && quickflow.len == slowLoadFine.len && quickflow.len == quickLoadCoarse.len && quickflow.len == slowLoadCoarse.len && quickflow.len == totalFineLoad.len && quickflow.len == totalCoarseLoad.len && quickflow.len == generatedLoadFine.len && quickflow.len == generatedLoadCoarse.len
+//@   requires timeStepInSeconds > 0 && area > 0 && maxConc >= 0 && rainThreshold >= 0
+//@   requires forall(t, 0, quickflow.len, rainfall.at(t) >= 0)
+//@   assigns quickLoadFine.cells, slowLoadFine.cells, quickLoadCoarse.cells, slowLoadCoarse.cells, totalFineLoad.cells, totalCoarseLoad.cells, generatedLoadFine.cells, generatedLoadCoarse.cells
+//@   loop 0 invariant 0 <= day && day <= n
+//@   loop 0 invariant implies(day < n, rainfall.at(day) >= 0)
+//@   loop 0 step [C16.usle-totals] totalFineLoad.at(day) == quickLoadFine.at(day) + slowLoadFine.at(day) && totalCoarseLoad.at(day) == quickLoadCoarse.at(day) + slowLoadCoarse.at(day)
+//@   loop 0 step [C16.usle-delivery] quickLoadFine.at(day) == generatedLoadFine.at(day) * (usleHSDRFine*0.01) && quickLoadCoarse.at(day) == generatedLoadCoarse.at(day) * (usleHSDRCoarse*0.01)
+//@   loop 0 step [C16.usle-fine-fraction] generatedLoadFine.at(day) * (klsc.at(day) - klscFine.at(day)) == generatedLoadCoarse.at(day) * klscFine.at(day)
+//@   loop 0 step [C16.usle-zero-driver] implies(rainfall.at(day) <= rainThreshold || quickflow.at(day) <= 0, quickLoadFine.at(day) == 0 && quickLoadCoarse.at(day) == 0 && generatedLoadFine.at(day) == 0 && generatedLoadCoarse.at(day) == 0)
+//@   loop 0 step [C16.usle-slow-linear] slowLoadFine.at(day) == dwc*slowflow.at(day)*0.001
